@@ -17,10 +17,41 @@ where
     R: ArchiveReader,
     R::Error: std::fmt::Debug,
 {
+    clone_pipeline_full(reader, vec![], false, seeds).await
+}
+
+/// clone_archive of src/clone_cmd.rs at the library level: an existing output (`prior`), optionally scanned and
+/// re-ordered in place, then the seeds in order, then the archive, then the resize
+pub async fn clone_pipeline_full<R>(reader: R, prior: Vec<u8>, inplace: bool, seeds: &[Vec<u8>]) -> Result<Vec<u8>, String>
+where
+    R: ArchiveReader,
+    R::Error: std::fmt::Debug,
+{
     let mut archive = Archive::try_init(reader).await.map_err(|e| format!("open: {:?}", e).chars().take(60).collect::<String>())?;
     let idx = archive.build_source_index();
     let total = archive.total_source_size();
-    let mut out = CloneOutput::new(MemFile::new(vec![], None), idx);
+    let mut file = MemFile::new(prior, None);
+    let output_index = if inplace {
+        // chunk_index_from_readable
+        let cfg = archive.chunker_config().clone();
+        let mut index = bitar::ChunkIndex::new_empty(archive.chunk_hash_length());
+        {
+            let mut st = cfg.new_chunker(&mut file);
+            let mut n = 0;
+            while let Some(r) = st.next().await {
+                let (off, chunk) = r.map_err(|e| format!("scan: {}", e))?;
+                let (hash, chunk) = chunk.verify().into_parts();
+                index.add_chunk(hash, chunk.len(), &[off]);
+                n += 1;
+                if n > 1_000_000 { return Err("unbounded".into()); }
+            }
+        }
+        Some(index)
+    } else { None };
+    let mut out = CloneOutput::new(file, idx);
+    if let Some(oi) = output_index {
+        out.reorder_in_place(oi).await.map_err(|e| format!("reorder: {}", e))?;
+    }
     for s in seeds {
         let cfg = archive.chunker_config().clone();
         let mut st = cfg.new_chunker(&s[..]);
@@ -46,6 +77,108 @@ where
     if total > (1 << 30) { return Err("set_len: source size not plausible".into()); }
     data.resize(total as usize, 0);
     Ok(data)
+}
+
+pub fn lib_clone_full(bytes: &[u8], prior: &[u8], inplace: bool, seeds: &[Vec<u8>]) -> Result<Vec<u8>, String> {
+    let bytes = bytes.to_vec();
+    let seeds = seeds.to_vec();
+    let prior = prior.to_vec();
+    let r = std::panic::catch_unwind(move || {
+        let rt = tokio::runtime::Builder::new_current_thread().enable_all().build().unwrap();
+        rt.block_on(async move {
+            match tokio::time::timeout(Duration::from_secs(20), clone_pipeline_full(IoReader::new(Cursor::new(bytes)), prior, inplace, &seeds)).await {
+                Ok(r) => r,
+                Err(_) => Err("TIMEOUT".to_string()),
+            }
+        })
+    });
+    r.unwrap_or_else(|_| Err("PANIC".to_string()))
+}
+
+/// the chunks the real chunker finds in `data` under the archive's configuration
+fn real_chunks(bytes: &[u8], data: &[u8]) -> Vec<Vec<u8>> {
+    let bytes = bytes.to_vec();
+    let data = data.to_vec();
+    std::panic::catch_unwind(move || {
+        let rt = tokio::runtime::Builder::new_current_thread().enable_all().build().unwrap();
+        rt.block_on(async move {
+            let archive = match Archive::try_init(IoReader::new(Cursor::new(bytes))).await { Ok(a) => a, Err(_) => return vec![] };
+            let cfg = archive.chunker_config().clone();
+            let mut st = cfg.new_chunker(&data[..]);
+            let mut v = vec![];
+            while let Some(Ok((_, c))) = st.next().await { v.push(c.data().to_vec()); if v.len() > 100_000 { break; } }
+            v
+        })
+    }).unwrap_or_default()
+}
+
+/// an edit of `src` that keeps much of its content: the kind of file a seed or an old output is
+fn mutate(rng: &mut Rng, src: &[u8]) -> Vec<u8> {
+    let mut v = src.to_vec();
+    for _ in 0..rng.range(1, 4) {
+        let n = v.len();
+        match rng.below(6) {
+            0 if n > 0 => { let a = rng.below(n as u64) as usize; let e = (a + rng.range(1, 60) as usize).min(n); for j in a..e { v[j] = rng.next() as u8; } }
+            1 => { let a = rng.below(n as u64 + 1) as usize; let ins: Vec<u8> = (0..rng.range(1, 80)).map(|_| rng.next() as u8).collect(); v.splice(a..a, ins); }
+            2 if n > 0 => { let a = rng.below(n as u64) as usize; let e = (a + rng.range(1, 80) as usize).min(n); v.drain(a..e); }
+            3 if n > 1 => { let k = rng.range(1, n as u64 - 1) as usize; v.rotate_left(k); }
+            4 if n > 0 => { let a = rng.below(n as u64) as usize; let e = (a + rng.range(1, 200) as usize).min(n); let part = v[a..e].to_vec(); let at = rng.below(v.len() as u64 + 1) as usize; v.splice(at..at, part); }
+            _ => { v.truncate(rng.below(n as u64 + 1) as usize); }
+        }
+    }
+    v
+}
+
+/// Suite `cbytes` (C02, C03): the whole clone over byte strings -- an old output scanned and re-ordered in
+/// place, seeds scanned with the archive's chunker, then the archive -- against Model/CloneBytes.v
+pub fn suite_cbytes(dir: &str, seed: u64, thorough: bool, st: &mut Stats) {
+    let mut rng = Rng::new(seed ^ 0xa7);
+    let mut out = SuiteOut::new(dir, "cbytes");
+    let n = if thorough { 2500 } else { 260 };
+    for _ in 0..n {
+        let len = match rng.below(10) { 0 => 0, 1 => rng.range(1, 20) as usize, _ => rng.range(20, 2500) as usize };
+        let (src, kind) = gen_data(&mut rng, len);
+        let real_writer = rng.chance(3, 4);
+        let bytes = if real_writer {
+            let cfg = crate::chunking::gen_cfg(&mut rng, true);
+            let c = CompressCase { cfg, hashlen: rng.range(4, 64) as usize, comp: crate::archive::gen_comp(&mut rng), meta: Default::default(), src: src.clone() };
+            match run_create_archive(&c, 2, vec![]) { Ok(b) => b, Err(_) => continue }
+        } else { conforming_archive(&mut rng, &src).0 };
+        let prior: Vec<u8> = match rng.below(7) {
+            0 => vec![],
+            1 => src.clone(),
+            2 => { let mut v = src.clone(); for _ in 0..rng.range(1, 300) { v.push(rng.next() as u8); } v }
+            3 => { let l = rng.range(0, 1500) as usize; gen_data(&mut rng, l).0 }
+            _ => mutate(&mut rng, &src),
+        };
+        let inplace = !prior.is_empty() && rng.chance(3, 4);
+        let seeds: Vec<Vec<u8>> = (0..rng.below(3)).map(|_| if rng.chance(1, 5) { gen_data(&mut rng, 300).0 } else { mutate(&mut rng, &src) }).collect();
+        let r = lib_clone_full(&bytes, &prior, inplace, &seeds);
+        st.evaluations += 1;
+        st.oracle_checks += 1;
+        let al = match aclone_line(&bytes) { Some(a) => a, None => continue };
+        // hash table for every chunk the real chunker finds in the old output and the seeds
+        let mut tab: Vec<String> = vec![];
+        let mut seen = std::collections::HashSet::new();
+        let mut scanned: Vec<&Vec<u8>> = seeds.iter().collect();
+        if inplace { scanned.push(&prior); }
+        let mut nchunks = 0;
+        for d in scanned { for c in real_chunks(&bytes, d) { nchunks += 1; if seen.insert(c.clone()) { tab.push(format!("{}={}", hex(&c), hex(&b2(&c)))); } } }
+        let line = format!("cbytes {} {} {} {} {}", &al["aclone ".len()..], if prior.is_empty() { "-".into() } else { hex(&prior) }, if inplace { 1 } else { 0 },
+            if seeds.is_empty() { "-".into() } else { seeds.iter().map(|s| if s.is_empty() { "e".to_string() } else { hex(s) }).collect::<Vec<_>>().join(",") },
+            if tab.is_empty() { "-".into() } else { tab.join(";") });
+        match &r {
+            Ok(got) if *got == src => {}
+            Ok(_) => st.violation(if inplace { "C03" } else { "C02" }, "clone with an old output / seeds reported success with an output different from the source", &line),
+            Err(e) => st.violation(if inplace { "C03" } else { "C02" }, &format!("clone of a valid archive with an old output / seeds failed: {}", e), &line),
+        }
+        let _ = kind; st.count(&format!("cbytes/{}/prior={}/inplace={}/seeds={}", if real_writer { "bita-writer" } else { "free-encoder" },
+            if prior.is_empty() { "none" } else if prior == src { "identical" } else { "other" }, inplace, seeds.len()));
+        if nchunks >= 3 { st.nontrivial_key(line.as_bytes()); }
+        st.sample(format!("cbytes src={}B archive={}B prior={}B inplace={} seeds={:?} scanned-chunks={}", src.len(), bytes.len(), prior.len(), inplace, seeds.iter().map(|s| s.len()).collect::<Vec<_>>(), nchunks));
+        out.push(&line, &aclone_impl(&r));
+    }
+    out.finish();
 }
 
 pub fn lib_clone(bytes: &[u8], seeds: &[Vec<u8>]) -> Result<Vec<u8>, String> {
